@@ -124,7 +124,7 @@ def make_params(shape, A, G):
     raise KeyError(shape)
 
 
-def h_instantiate(eng, shape, api, pool_kind):
+def h_instantiate(eng, shape, api, pool_kind, caller_flags=False):
     Obj, A, B, C, G = world_pool()
     params = make_params(shape, A, G)
     name = 'Function1' if shape == 'Function1' else 'K'
@@ -153,6 +153,10 @@ def h_instantiate(eng, shape, api, pool_kind):
     vc = None if vcmode == 0 else ({} if vcmode == 1 else {params[0]: (True, False)})
     dis_usv = bool(eng.fresh_bool('dis_use_site_variance'))
     dis_contra = bool(eng.fresh_bool('dis_contravariance'))
+    # the caller's own switches of instantiate_type_constructor: 0 defaults, 1 disable_variance, 2 disable_variance_functions,
+    # 3 enable_pecs=False
+    flag = int(eng.fresh_int(0, 3, 'caller_flags')) if caller_flags else 0
+    fkw = {1: dict(disable_variance=True), 2: dict(disable_variance_functions=True), 3: dict(enable_pecs=False)}.get(flag, {})
     w = World()
     w.top = w.snap(Obj)
     for t in (A, B, C, G, Dreg.get_type(), Dabs.get_type(), Dint.get_type()):
@@ -164,7 +168,7 @@ def h_instantiate(eng, shape, api, pool_kind):
         try:
             if api == 'constructor':
                 res, tvm = tu.instantiate_type_constructor(Kc, list(pool), type_var_map=dict(pre) or None,
-                                                           variance_choices=vc)
+                                                           variance_choices=vc, **fkw)
                 targs = list(res.type_args)
             elif api == 'compute':
                 targs, tvm = tu._compute_type_variable_assignments(
@@ -181,6 +185,10 @@ def h_instantiate(eng, shape, api, pool_kind):
                 use_site_variance_disabled=dis_usv, contravariance_disabled=dis_contra, rng=log[:12])
     key = 'shape=%s,api=%s,pool=%s,pre=%d,vc=%d,usv=%d,contra=%d' % (shape, api, pool_kind, premode, vcmode,
                                                                      dis_usv, dis_contra)
+    if caller_flags:
+        key += ',flags=%d' % flag
+        case['caller_switches'] = fkw
+    pecs = name == 'Function1' and api == 'constructor' and flag != 3
     if exc is not None:
         eng.event('exception')
         return [Ob('no-exception|%s|%s' % (type(exc).__name__, key), False, dict(case, exception=repr(exc)))]
@@ -226,13 +234,14 @@ def h_instantiate(eng, shape, api, pool_kind):
             obs.append(Ob('no-projection-on-mentioned-param|%s,param=%d' % (key, i), not later_mentions,
                           dict(case, param=p.name)))
             obs.append(Ob('projection-allowed|%s,param=%d' % (key, i),
-                          api != 'function' and (vc is not None or (name == 'Function1' and api == 'constructor'))
+                          api != 'function' and (vc is not None or pecs)
+                          and flag != 1 and not (flag == 2 and name == 'Function1')
                           and not dis_usv
                           and not (t[1] == 2 and dis_contra)
                           and not (t[1] == 2 and p.is_covariant()) and not (t[1] == 1 and p.is_contravariant())
-                          and not (name != 'Function1' and p in (vc or {}) and
+                          and not (not pecs and p in (vc or {}) and
                                    ((t[1] == 1 and not vc[p][0]) or (t[1] == 2 and not vc[p][1])))
-                          and not (name == 'Function1' and api == 'constructor' and
+                          and not (pecs and
                                    ((i < len(params) - 1 and t[1] == 1) or (i == len(params) - 1 and t[1] == 2))),
                           dict(case, param=p.name)))
     eng.notes['sample'] = case
@@ -271,6 +280,12 @@ def jobs(tier):
                                bounds='parameter list %s, pool %s, pre-assignment in {none, first:=B, first:=out B, last:=B}, '
                                       'variance choices in {None, {}, first:(True,False)}, both switches, every RNG outcome'
                                       % (shape, pool_kind), outside=OUT))
+    for shape in ('Function1', 'T:A', 'T1,T2:T1'):
+        out.append(Job('inst-%s-constructor-caller-switches' % shape.replace(',', '+').replace(':', '.'),
+                       h_instantiate, dict(shape=shape, api='constructor', pool_kind='mixed', caller_flags=True), split_depth=5,
+                       functions=FUNCS, stubs=STUBS, require_events=['instantiated'], budget_s=1200, crosscheck_every=100,
+                       bounds='as inst-%s-constructor-mixed, additionally the caller passes one of {nothing, disable_variance, '
+                              'disable_variance_functions, enable_pecs=False}' % shape, outside=OUT))
     # the instantiation helpers as the generator calls them: receivers and type arguments chosen by _gen_func_call /
     # _get_matching_class / _get_matching_objects (unit harness of vlib/genunits.py, obligations tagged C08)
     from vlib import genunits as GU
